@@ -1969,13 +1969,29 @@ func (ev *Evaluator) native(pos token.Pos, fn *types.Func, recv Value, args []Va
 			return &FExpr{Op: "floor", A: f}, true
 		}
 	case "sort.Slice", "sort.SliceStable":
-		ev.SortCalls = append(ev.SortCalls, SortCall{Pos: pos, Func: full})
 		sl, ok := args[0].(Slice)
 		less, ok2 := args[1].(*FuncVal)
+		call := SortCall{Pos: pos, Func: full}
 		if ok && ok2 {
 			// in-place stable insertion sort by adjacent swaps (sort.Slice is modelled as
-			// stable too; its use where stability matters is flagged by the rules)
+			// stable too; its use where stability matters is flagged by the rules, which are told the
+			// order of the input and whether distinguishable elements tie under the comparator)
 			es := sl.Elems()
+			shown := make([]string, len(es))
+			for i, e := range es {
+				shown[i] = Show(e)
+			}
+			call.Input = strings.Join(shown, " ")
+			defer func() {
+				for i := 0; i+1 < len(es); i++ {
+					a, _ := ev.callFuncVal(pos, less, []Value{K(int64(i)), K(int64(i + 1))}).(bool)
+					b, _ := ev.callFuncVal(pos, less, []Value{K(int64(i + 1)), K(int64(i))}).(bool)
+					if !a && !b && Show(es[i]) != Show(es[i+1]) {
+						call.Ties = true
+					}
+				}
+				ev.SortCalls = append(ev.SortCalls, call)
+			}()
 			for i := 1; i < len(es); i++ {
 				for j := i; j > 0; j-- {
 					b, isBool := ev.callFuncVal(pos, less, []Value{K(int64(j)), K(int64(j - 1))}).(bool)
@@ -1988,6 +2004,8 @@ func (ev *Evaluator) native(pos token.Pos, fn *types.Func, recv Value, args []Va
 					es[j], es[j-1] = es[j-1], es[j]
 				}
 			}
+		} else {
+			ev.SortCalls = append(ev.SortCalls, call)
 		}
 		return nil, true
 	case "sort.Sort", "sort.Strings", "sort.Ints":
@@ -2212,6 +2230,10 @@ type NamedVar struct {
 type SortCall struct {
 	Pos  token.Pos
 	Func string
+	// Input renders the slice as it was handed to sort.Slice / sort.SliceStable; Ties reports that two adjacent
+	// elements of the result compare equal under the comparator although they are different values.
+	Input string
+	Ties  bool
 }
 
 // SetGlobal presets a package-level variable.
